@@ -54,6 +54,16 @@ Theorem C16_both_classes : forall a f GM w lat h,
 Proof. exact both_classes. Qed.
 Print Assumptions C16_both_classes.
 
+(* only w^2 enters: retrograde rotation (w < 0, as for Venus, Uranus, Pluto in the shipped table) gives the same outcome,
+   for ALL reals and on every branch; in particular negative rates are not rejected *)
+Theorem C16_even_in_rotation_rate : forall a f GM w lat h,
+  C16_consts_R a f GM (- w) = C16_consts_R a f GM w /\ C16_ge_R a f GM (- w) = C16_ge_R a f GM w /\
+  C16_gp_R a f GM (- w) = C16_gp_R a f GM w /\ C16_g_R a f GM (- w) lat h = C16_g_R a f GM w lat h /\
+  C16_g0_R a f GM (- w) lat = C16_g0_R a f GM w lat /\ C16_ref_U0_J2_R a f GM (- w) = C16_ref_U0_J2_R a f GM w /\
+  C16_gmean_R a f GM (- w) = C16_gmean_R a f GM w /\ C16_wgs_g_R a f GM (- w) lat h = C16_wgs_g_R a f GM w lat h.
+Proof. exact even_in_w. Qed.
+Print Assumptions C16_even_in_rotation_rate.
+
 (* international_gravity, all five epochs: latitude guard, equator and pole values, symmetry, range, positivity *)
 Theorem C16_international_gravity :
   igf_ok C16_intl_1930_R (978049/100000) (52884/10000000) /\
